@@ -73,6 +73,13 @@ def gen_preserve_tree(rng: random.Random) -> Dict[str, Any]:
             vn = rng.choice([f"someVar{k}x{v}", f"CONSTANT_{k}_{v}", f"lower_var_{k}_{v}"])
             parts.append(f"{vn} = {v + 10}\n")
             d["vars"].append(vn)
+        # a module variable that only comes into being through `global` inside a function
+        d["global_vars"] = {}
+        if rng.random() < 0.35:
+            gv, cf = f"SETTINGS_{k}", f"configure_{k}"
+            parts.append(f"def {cf}():\n    global {gv}\n    {gv} = dict(level={k})\n")
+            d["funcs"].append(cf)
+            d["global_vars"][gv] = cf
         # the library itself mentions one of its own names as an attribute of something else
         # (obj.render next to def render): its own mention must not cancel what other files need
         if d["funcs"] and rng.random() < 0.5:
@@ -91,10 +98,17 @@ def gen_preserve_tree(rng: random.Random) -> Dict[str, Any]:
     for c in range(n_clients):
         lines: List[str] = []
         refs: List[str] = []
+        setup: List[str] = []
         for lib in rng.sample(libs, rng.randint(1, len(libs))):
             imp = lib["import"]
             alias = f"m{c}_{lib['name']}"
             used_module = False
+            for gv, cf in lib["global_vars"].items():
+                if rng.random() < 0.6:
+                    if not any(l == f"import {imp}" for l in lines):
+                        lines.append(f"import {imp}")
+                    setup.append(f"{imp}.{cf}()")
+                    refs.append(f"{imp}.{gv}")
             names = lib["funcs"] + list(lib["classes"]) + lib["vars"]
             for nm in rng.sample(names, rng.randint(1, min(4, len(names)))):
                 form = rng.choice(["from", "from", "from_as", "from_unused", "modattr", "modattr_as"])
@@ -126,7 +140,10 @@ def gen_preserve_tree(rng: random.Random) -> Dict[str, Any]:
             if l.startswith("from ") and rng.random() < 0.3:
                 where = rng.choice(["try", "if", "func"])
                 if where == "try":
-                    nested.append(f"try:\n    {l}\nexcept ImportError:\n    raise\n")
+                    # (a bare `raise` here makes fix_raise_missing_from crash with AttributeError on the
+                    # unchanged tree - a totality matter, not generated)
+                    bound_t = l.split(" import ")[1].split("#")[0].strip().split(" as ")[-1]
+                    nested.append(f"try:\n    {l}\nexcept ImportError:\n    {bound_t} = None\n")
                 elif where == "if":
                     nested.append(f"if REFERENCES is not None:\n    {l}\n")
                 else:
@@ -136,8 +153,8 @@ def gen_preserve_tree(rng: random.Random) -> Dict[str, Any]:
             else:
                 flat.append(l)
         needs_flag = any(n.startswith("if REFERENCES") for n in nested)
-        body = "\n".join(flat) + "\n\n" + ("REFERENCES = []\n" if needs_flag else "") + "\n".join(nested) + "\n" + "REFERENCES = [\n" + "".join(f"    {r},\n" for r in dict.fromkeys(refs)) + "]\n"
-        rel = f"vsc{c}_client.py"
+        body = "\n".join(flat) + "\n\n" + ("REFERENCES = []\n" if needs_flag else "") + "\n".join(nested) + "\n" + "".join(f"{l}\n" for l in dict.fromkeys(setup)) + "REFERENCES = [\n" + "".join(f"    {r},\n" for r in dict.fromkeys(refs)) + "]\n"
+        rel = f"{rng.choice(['vsc', 'vsc', 'vsz'])}{c}_client.py"  # before or after the libraries in sorted order
         files[rel] = body
         clients.append(rel)
     return {"files": files, "libs": libs, "clients": clients}
@@ -184,6 +201,14 @@ def _defs(text: str, loose: bool = False) -> Dict[str, str]:
             for t in targets:
                 if isinstance(t, ast.Name):
                     out[t.id] = "variable"
+    # module variables bound through `global` inside a function
+    for fn in ast.walk(tree):
+        if isinstance(fn, (ast.FunctionDef, ast.AsyncFunctionDef)):
+            declared = {n for g in ast.walk(fn) if isinstance(g, ast.Global) for n in g.names}
+            if declared:
+                for n in ast.walk(fn):
+                    if isinstance(n, ast.Name) and isinstance(n.ctx, ast.Store) and n.id in declared and n.id not in out:
+                        out[n.id] = "variable"
     if not loose:
         return out
     # variables: any name bound at module scope by whatever statement (assignment, with ... as,
